@@ -24,6 +24,8 @@ example : run sample sampleDe [(.str "core", 1), (.str "f", 2), (.str "zz", 9), 
     = .ok [.val 3, .vec [1, 4], .val 5, .dflt] := by rfl
 example : run sample sampleDe [(.str "a", 1), (.str "a", 2)] = .error (.duplicate "a") := by rfl
 example : run sample sampleDe [(.str "e", 1)] = .error (.missing "a") := by rfl
+-- a duplicate and a missing field compete: the duplicate wins
+example : run sample sampleDe [(.str "c", 1), (.str "c", 2)] = .error (.duplicate "c") := by rfl
 
 /-- what a successful run looks like: the loop ended in a state `st` that is, slot by slot, the
 field's own arm folded over the field's values in document order. -/
@@ -142,6 +144,47 @@ theorem C18_missing_error (schema : Schema) (de : FieldSpec → V → Except ε 
   cases hr : run schema de pairs with
   | error e => exact ⟨e, rfl⟩
   | ok res => exact absurd hd (C18_missing schema de pairs res hr i f hf hk hv).1
+
+/-- which error wins: a `missing field` error is reported only when the whole loop succeeded —
+so no plain field was given twice (a `duplicate_field`, raised inside the loop, always wins over
+a missing field) and every key and value was accepted — and the field named is the FIRST one in
+declaration order that did not occur and has no default. -/
+theorem C18_dup_beats_missing (schema : Schema) (de : FieldSpec → V → Except ε R) (pairs : List (Key × V))
+    (n : String) (h : run schema de pairs = .error (.missing n)) :
+    (∀ i f, schema[i]? = some f → f.kind = .plain → (occs schema pairs i).length ≤ 1) ∧
+    ∃ (i : Nat) (f : FieldSpec), schema[i]? = some f ∧ f.name = n ∧ occs schema pairs i = [] ∧ canDefault f = .no ∧
+      ∀ (j : Nat) (g : FieldSpec), j < i → schema[j]? = some g →
+        ¬ (occs schema pairs j = [] ∧ g.kind ≠ .duplicated ∧ canDefault g = .no) := by
+  unfold run at h
+  cases hl : loop schema de pairs (initState schema) with
+  | error e =>
+    simp only [hl] at h
+    have := loop_not_missing schema de pairs _ e hl n
+    exact absurd (by injection h) this
+  | ok st =>
+    simp only [hl] at h
+    obtain ⟨_, hlen, hrel⟩ := (loop_ok_iff de schema pairs (initState schema) st (by simp [initState])).mp hl
+    constructor
+    · intro i f hf hk
+      obtain ⟨s', _, hfold⟩ := hrel i f _ hf (initState_get schema i f hf)
+      have hinit : initSlot (R := R) f = .opt none := by simp [initSlot, hk]
+      rw [hinit] at hfold
+      rcases (foldSlot_plain de f hk _ _).mp hfold with ⟨h0, _⟩ | ⟨v, r, h1, _⟩
+      · simp [h0]
+      · simp [h1]
+    · obtain ⟨i, f, h1, h2, h3, h4, h5⟩ := extract_missing (ε := ε) schema st _ (by simpa [initState] using hlen) h
+      have hn : f.name = n := by injection h2 with h2; exact h2.symm
+      obtain ⟨s', hs', hfold⟩ := hrel i f _ h1 (initState_get schema i f h1)
+      have hs0 : s' = .opt none := by rw [h3] at hs'; exact (Option.some.inj hs').symm
+      subst hs0
+      refine ⟨i, f, h1, hn, foldSlot_empty de f _ hfold, h4, ?_⟩
+      intro j g hj hg ⟨hocc, hkd, hcd⟩
+      obtain ⟨sj, hsj, hfoldj⟩ := hrel j g _ hg (initState_get schema j g hg)
+      rw [hocc] at hfoldj
+      have hinit : initSlot (R := R) g = .opt none := by
+        cases hk' : g.kind <;> simp_all [initSlot]
+      have hsj0 : sj = .opt none := by simpa [foldSlot, hinit] using hfoldj.symm
+      exact h5 j g hj hg ⟨hsj0 ▸ hsj, hcd⟩
 
 /-- the alias / binary token id selects the right field: a string key selects the first field
 whose alias — or, without alias, name — equals it (so the un-aliased name of an aliased field
